@@ -103,7 +103,7 @@ func (p *c08) Components() map[string][]string {
 }
 func (p *c08) Assumptions() []string {
 	return []string{
-		"an adversary request that is a copy of a message the honest client of that session already sent (byte-identical, or re-encoded with non-minimal CBOR heads that leave every value unchanged), carried by that session's live token, is network duplication and is not judged",
+		"an adversary request that is a copy of a message the honest client of that session already sent (byte-identical, re-encoded with non-minimal CBOR heads that leave every value unchanged, or altered only inside the protected header of a tunnel message's COSE wrapper, which leaves key, IV and ciphertext and hence the plaintext unchanged), carried by that session's live token, is network duplication and is not judged",
 		"state-backend methods do not yield in this property, so a request is handled atomically and journalled effects are attributed to exactly one request",
 	}
 }
@@ -369,7 +369,11 @@ func (p *c08) Exec(env *Env, plan any) {
 					m := muts[(in.Mutate-1)%len(muts)]
 					body = m.ApplyAny()
 					desc += "+" + m.String()
-					if m.Semantic {
+					// an alteration confined to the protected header of the COSE wrapper
+					// of a tunnel message leaves key, IV and ciphertext as they were: if
+					// the receiver accepts it at all, it obtains the same plaintext
+					// (whether it should accept it is C05's question, not C08's)
+					if m.Semantic && !(src.MsgType >= 66 && src.MsgType <= 70 && strings.HasPrefix(m.Path, "/0/0")) {
 						sameContent = ""
 					}
 				}
